@@ -35,6 +35,16 @@ def _obj(shape, fill=None):
     return a
 
 
+def _nd(dtype):
+    """builtins shadowed in the loaded modules (float/int passing symbolic values through) used as a dtype"""
+    n = getattr(dtype, "__name__", "")
+    if n in ("sym_int", "to_int"):
+        return int
+    if n in ("sym_float", "to_float"):
+        return float
+    return dtype
+
+
 _FLOATY = (None, float, np.double, np.float64, np.float32, "float", "float64", "double")
 
 
@@ -72,12 +82,15 @@ class SymNP(types.ModuleType):
 
     # ---- allocation
     def empty(self, shape, dtype=None, **kw):
+        dtype = _nd(dtype)
         return _obj(shape) if _floaty(dtype) else np.empty(shape, dtype=dtype)
 
     def zeros(self, shape, dtype=None, **kw):
+        dtype = _nd(dtype)
         return _obj(shape, 0) if _floaty(dtype) else np.zeros(shape, dtype=dtype)
 
     def ones(self, shape, dtype=None, **kw):
+        dtype = _nd(dtype)
         return _obj(shape, 1) if _floaty(dtype) else np.ones(shape, dtype=dtype)
 
     def full(self, shape, fill_value, dtype=None, **kw):
@@ -108,6 +121,7 @@ class SymNP(types.ModuleType):
         return np.full_like(a, fill_value, dtype=dtype)
 
     def array(self, x, dtype=None, **kw):
+        dtype = _nd(dtype)
         if dtype is not None and _floaty(dtype) and SymNP.force_object and Ctx.cur is not None and not _has_sym(x):
             # explicit float conversion while executing symbolically: keep an object array (of python floats) so that
             # later in-place updates with symbolic operands (amplitude *= taper) keep working; copy semantics as np.array
